@@ -3,9 +3,9 @@ CONSTANTS
   NModelsSet = {2}
   Tables = {2}
   FirstExprs = {1, 2, 3, 4, 5, 6, 7, 8, 9, 10}
-  SecondExprs = {2, 3, 6}
+  SecondExprs = {3, 6}
   ModelArgs = {0, 1, 99, 3}
-  FlagSets = {1, 2, 3}
+  FlagSets = {1, 2}
 INVARIANT L_Dom
 INVARIANT L_Refusals
 INVARIANT L_Copies
